@@ -3,13 +3,13 @@ package hsim
 // C09 Concurrent calls each get their own response.
 
 import (
-	"strings"
-	"errors"
 	"context"
+	"errors"
 	"fmt"
 	"net"
 	"reflect"
 	"sort"
+	"strings"
 	"time"
 
 	"github.com/hprose/hprose-golang/v3/rpc/core"
@@ -26,7 +26,7 @@ func c09f(nonce int) int { return nonce*7 + 3 }
 
 type c09call struct {
 	id, nonce int
-	impatient bool // gives up after 50 ms: may fail with its deadline, nothing else
+	impatient bool   // gives up after 50 ms: may fail with its deadline, nothing else
 	method    string // "" or "hold": c09f(nonce); "hold2": c09f(nonce)+1000003
 	done      bool
 	res       []interface{}
